@@ -14,7 +14,7 @@ PERIODS = [(1, 's'), (500, 'ms'), (2, 's'), (250000, 'us'), (1, 'ms'), (1, 's'),
            # any coarser unit, float periods
            (1000, 'ms'), (1000000, 'us'), (10 ** 9, 'ns'), (500000, 'us'), (5 * 10 ** 8, 'ns'), (1500, 'ms'),
            (1500000, 'us'), (1500000000, 'ns'), (2500, 'us'), (2500000, 'ns'), (0.5, 's'), (1.5, 's'), (3, 's'),
-           (7, 'ms'), (60, 's'), (1001, 'ms')]
+           (7, 'ms'), (60, 's'), (1001, 'ms'), (10, 'ms'), (10000, 'us'), (1, 'us'), (100, 'ms')]
 
 
 def period_ns(period):
